@@ -22,9 +22,9 @@ def runs(tier, seed, replay):
 CONFIG = {
     "runs": runs,
     "status": "FULL for the plain sampler (Ddnnf::sample_t_wise, every t) and for the fitness-guided sampler (ExtendedDdnnf::sample_t_wise) "
-              "for t <= n; the fitness-guided sampler is REFUTED for t > n (K11); both are REFUTED on models with a repeated child (K36). "
-              "FULL (Coq, Props/C09.v): (0) C09_sample_t_wise_covers - for every WFQ circuit C over n >= 1 features with root_count > 0 in "
-              "which no node lists a child twice (nodup_children), every t, EVERY order oracle that returns permutations (ord_int: "
+              "for t <= n (the whole property: for t > n there is no set of t literals over distinct features, coverage is vacuous; what the fitness variant does with min(t,n) there is an OBSERVATION, former K11, withdrawn as a finding because the oracle demanded more than the property states). K36 (panic on a repeated child) is repaired by F13 "
+              "(children.iter().unique() in remove_unneeded): the theorems carry no hypothesis on the child lists any more. "
+              "FULL (Coq, Props/C09.v): (0) C09_sample_t_wise_covers - for every WFQ circuit C over n >= 1 features with root_count > 0, every t, EVERY order oracle that returns permutations (ord_int: "
               "iteration order of the HashSet of cross interactions per ZippingMerger::merge call; ord_sort: order of equally long samples "
               "after sort_unstable in merge_all; ord_shuf: the shuffle of literals_to_resample) and EVERY trim choice (trim_pick: which "
               "configurations trim_and_resample removes - the f64 ranks of calc_stats are abstracted by this oracle, coverage is proved for "
@@ -43,9 +43,13 @@ CONFIG = {
               "is created); Or: smoothness gives equal variable sets, a candidate is dropped only if all its min(t,len)-subsets are covered. "
               "C09_shuffle_irrelevant: the thread-RNG shuffle in is_t_wise_covered_by cannot change its answer (not an oracle). "
               "C09_tints_is_iterator: the interaction lists of the pipeline model are the outputs of the TInteractionIter model. "
-              "REFUTED without nodup_children: C09_sample_t_wise_repeated_child_refuted - on the WFQ circuit [T; L 1; L 2; And [2;1;0;0]] "
-              "the sampler panics for every oracle and every t (remove_unneeded removes the repeated child's sample twice); confirmed on the "
-              "code (c2d file 'nnf 4 4 2 / A 0 / L 1 / L 2 / A 4 0 0 1 2'): finding K36. "
+              "K36 / F13: C09_sample_t_wise_repeated_child_refuted is now a statement about the pipeline BEFORE the repair (sample_t_wise_v0 = "
+              "remove_unneeded_v0, one removal per occurrence of a child): on the WFQ circuit [T; L 1; L 2; And [2;1;0;0]] it panics for every "
+              "oracle and every t (confirmed on the code before F13 with the c2d file 'nnf 4 4 2 / A 0 / L 1 / L 2 / A 4 0 0 1 2'); with the "
+              "de-duplicating remove_unneeded the same circuit yields the one model (Example C09_sample_t_wise_repeated_child_repaired). Dropping "
+              "nodup_children needed (a) the de-duplication (Proofs/TwisePass.v remove_ok) and (b) in and_node / and_node_fit the disjointness of "
+              "the children's variable sets taken from decomposability by POSITION instead of by value (a repeated child of a decomposable and-node "
+              "has no variables, hence no sample; a repeated non-constant child is not decomposable / not deterministic, i.e. outside WFQ). "
               "(1) the iterator every stage relies on - C09_titer: for 1 <= t <= m the model of "
               "TIndicesIter::new(m,t) (carry/repair loop, checked Vec accesses, usize subtraction with and without overflow checks) "
               "yields exactly dec_tuples m t 0 then None, no panic; C09_titer_spec + C09_titer_nodup: that list is every strictly "
@@ -61,12 +65,12 @@ CONFIG = {
               "from the LITERAL lists with sizes min(len,k) / min(len,t-k), stable sort by objective value, reversed - AttributeSimilarityMerger, "
               "cover_with_caching_sorted with its two shifting loops, insert_config_sorted, trim_and_resample, complete_partial_configs_optimal "
               "= calc_best_config of C20; objective values in Z, averages compared by cross-multiplication): "
-              "C09_sample_t_wise_fitness_covers - WFQ, nodup_children, n >= 1, root_count > 0, EVERY objective vector, every t <= n, every trim "
+              "C09_sample_t_wise_fitness_covers - WFQ, n >= 1, root_count > 0, EVERY objective vector, every t <= n, every trim "
               "choice and shuffle => ResultWithSample S with twise_ok C n t S = true (node invariant: coverage of the t-interactions only when "
               "the node has at least t variables, plus: the sample's literal list contains exactly the leaves over its variables incl. every "
               "literal valid on its own - the cross interactions come from these lists). "
               "C09_sample_t_wise_fitness_refuted_t_exceeds_n: for t = 3 > n = 2 on (x1|-x1)&(x2|-x2) the model answers [1 2; -1 -2], "
-              "{1,-2} uncovered = finding K11, now a theorem about the model and reproduced by every recorded run of that class. "
+              "{1,-2} uncovered at the clamped strength min(t,n) (observation, former K11; counted in driver_stats c09_observed_t_exceeds_n_uncovered_fitness, not a violation of C09 as stated). "
               "Observation (no effect on the property): ExtendedDdnnf::insert_config_sorted compares the pushed configuration with itself "
               "(sorted_configs[curr_idx] after the push), its loop never runs - it is a plain push; the model says so and replays exactly. "
               "CORRESPONDENCE: hook H9 (repo_patches/H9-twise-choice-log.patch) records the order decisions of every plain library run and of "
@@ -79,7 +83,7 @@ CONFIG = {
         "C09_sample_t_wise_covers is about the hand-written model Model/Twise*.v; its tie to the Rust is the exact replay of every recorded plain run (hook H9): same sample, same order; without the hook in the ddnnife sources the harness is built against the runs carry 'olog absent' (STAT c09_replay_no_log) and only the post-condition check remains",
         "oracles of the model: ord_int / ord_sort / ord_shuf must return permutations (hypotheses of the theorem; the replay checks it for every recorded decision); trim_pick is unconstrained - the f64 ranks (unique_coverage / n_decided^t, average) are not modelled, the hook records the decision rank < average",
         "Config.sat_state / sat_state_complete are modelled by one option (marks, flag): (None, true) is unreachable in the Rust (only set_sat_state sets the flag, and it stores Some); Vec index operations on the literal vector are unchecked nth/upd in the model, the invariant CfgOK keeps all literals in 1..n; debug_assert!s are not modelled (all implied by the invariant; the dev-profile runs execute them)",
-        "nodup_children (no node lists a child twice) is a hypothesis of C09_sample_t_wise_covers: without it the sampler panics (K36); the loaders do not produce repeated children from d4 output, a hand-written c2d file can",
+        "a node may list the same child twice (the loaders do not produce this from d4 output, a hand-written c2d file can): lookup and the merges see the child's result once per occurrence (Empty results are filtered, a Void child makes an and-node Void, an or-merge of a sample with itself drops the second copy), remove_unneeded de-duplicates (F13); the hand-made cases c09-repeated-child / c09-repeated-child-free exercise this for both variants",
         "fitness variant: objective values are Z in the model (Model/Optimal.v convention); the correspondence feeds integer-valued f64 of small magnitude, for which sums are exact and the comparison of two averages (an f64 division each) agrees with cross-multiplication; a configuration without decided literal (0/0 = NaN in the Rust) is excluded by the invariant; calc_best_config is the C20 model (Iterator::max = last maximum)",
         "plain runs through the stream command ('t-wise l t' without f) carry no decision log and are judged by the post-condition only; a violation is kept as a replay case block (the recorded sample and decisions), not as a seed",
         "valid interactions are clamped to min(t,n) literals as the plain sampler does; under the literal reading (exactly t literals) coverage is vacuous for t > n",
